@@ -3,11 +3,15 @@
     tokens" is definitional; the theorems below give the rest that does not depend on
     individual handlers.  Not yet proved here (tested by the check's oracle on every input and
     stated in DESIGN.md): the first token starts right after the BOM, no handler emits a second
-    EOF, and the debug run never panics (C01). *)
+    EOF, and the debug run never panics (C01).
+    For macro-free texts (release profile) [C02_macro_free_tiling] closes these gaps: the starts form
+    a non-decreasing chain from the first position after an optional byte-order mark, where the
+    first token starts, to the end of the text (a corollary of the C11 simulation and of the same
+    fact about the reference lexer). *)
 From Coq Require Import NArith List Lia.
 From SasLexer Require Import Gen.TokenType Gen.ErrorKind Gen.Channel Model.Base Model.Core Model.Buffer
      Model.Lexer3 Proofs.Generic Proofs.LexGeneric Proofs.DbgErase Proofs.Sorted Proofs.LexSorted
-     Proofs.BufferProofs Proofs.WfCheck Properties.C19.
+     Proofs.BufferProofs Proofs.WfCheck Properties.C19 Spec.RefLex Proofs.RefLexTiling Proofs.OcBase Proofs.OcWhole Proofs.OcAll.
 Import ListNotations.
 Open Scope N_scope.
 
@@ -66,6 +70,26 @@ Proof.
   exists r. apply Hall. exact E.
 Qed.
 Print Assumptions C02_accessors_succeed.
+
+(** macro-free texts, release profile: the starts are a chain from the first position after the
+    byte-order mark to the end of the text; [chain lo hi xs] = lo <= x1 <= x2 <= ... <= hi *)
+Theorem C02_macro_free_tiling : forall (msep : bool) (src : list char),
+  macro_free (body_of src) = true ->
+  let toks := b_toks (lr_buffer (lex (mkCfg false msep) src)) in
+  let '(bb, text) := match src with c :: r => if c =? 65279 then (utf8_len c, r) else (0, src) | [] => (0, src) end in
+  chain bb (bb + blen text) (map t_byte toks) /\ match toks with t :: _ => t_byte t = bb | [] => False end.
+Proof.
+  intros msep src H. pose proof (lex_is_reflex_macro_free msep src H) as G. cbv zeta in G |- *.
+  pose proof (reflex_tiling src) as Tl.
+  destruct (match src with c :: r => if c =? 65279 then (utf8_len c, r) else (0, src) | [] => (0, src) end) as [bb text].
+  destruct (reflex src) as [[T E] lit]. destruct G as (_ & _ & G3 & _). destruct Tl as [T1 T2].
+  assert (K : map t_byte (b_toks (lr_buffer (lex (mkCfg false msep) src))) = map rt_byte T).
+  { pose proof (f_equal (map (fun x : TokenType * TokenChannel * N * payload => snd (fst x))) G3) as K. rewrite !map_map in K. exact K. }
+  split; [rewrite K; exact T1|].
+  destruct (b_toks (lr_buffer (lex (mkCfg false msep) src))) as [|t ts]; destruct T as [|u us]; cbn [map] in K; try discriminate; [exact T2|].
+  injection K as K1 _. rewrite K1. exact T2.
+Qed.
+Print Assumptions C02_macro_free_tiling.
 
 Example c02_example :
   map t_byte (b_toks (lr_buffer (lex (mkCfg false true) [65279; 97; 59]))) = [3; 4; 5].
